@@ -40,6 +40,7 @@ type c20Flow struct {
 	Quote      c20Quote `json:"quote"`
 	ChangeLen  int      `json:"change_script_len"` // 25 = P2PKH, otherwise a non-standard script of that length
 	BuyerInscr bool     `json:"buyer_receives_to_inscription_script"`
+	SellerLen  int      `json:"seller_receive_script_len,omitempty"` // 0 or 25 = P2PKH(seller); otherwise a non-standard script of that length
 }
 
 type c20Inscr struct {
@@ -75,6 +76,10 @@ func c20JudgeFlow(c *mon.Ctx, f *c20Flow) {
 	seller, _ := bec.PrivKeyFromBytes(bec.S256(), f.SellerKey)
 	buyer, _ := bec.PrivKeyFromBytes(bec.S256(), f.BuyerKey)
 	sellerScript, buyerScript := p2pkhOf(seller), p2pkhOf(buyer)
+	sellerRecv := sellerScript
+	if f.SellerLen != 0 && f.SellerLen != 25 {
+		sellerRecv = bscript.NewFromBytes(bytes.Repeat([]byte{0x51}, f.SellerLen))
+	}
 	coins := map[string]c20Coin{}
 	// the ordinal
 	ordScript := sellerScript
@@ -117,7 +122,7 @@ func c20JudgeFlow(c *mon.Ctx, f *c20Flow) {
 	ok := c.Try("ord."+f.Flow, func() {
 		switch f.Flow {
 		case "listing", "listing-2d":
-			sellerOut = &bt.Output{Satoshis: f.Price, LockingScript: bscript.NewFromBytes(append([]byte{}, *sellerScript...))}
+			sellerOut = &bt.Output{Satoshis: f.Price, LockingScript: bscript.NewFromBytes(append([]byte{}, *sellerRecv...))}
 			var pstx *bt.Tx
 			pstx, err = ord.ListOrdinalForSale(ctx, &ord.ListOrdinalArgs{SellerReceiveOutput: sellerOut, OrdinalUTXO: ordUTXO, OrdinalUnlocker: sellerUnlocker})
 			if err != nil {
@@ -148,7 +153,7 @@ func c20JudgeFlow(c *mon.Ctx, f *c20Flow) {
 				return
 			}
 			final, err = ord.AcceptBidToBuy1SatOrdinal(ctx, &ord.ValidateBidArgs{OrdinalUTXO: ordUTXO, BidAmount: f.Price, ExpectedFQ: fq},
-				&ord.AcceptBidArgs{PSTx: pstx, SellerReceiveScript: bscript.NewFromBytes(append([]byte{}, *sellerScript...)), OrdinalUnlocker: sellerUnlocker})
+				&ord.AcceptBidArgs{PSTx: pstx, SellerReceiveScript: bscript.NewFromBytes(append([]byte{}, *sellerRecv...)), OrdinalUnlocker: sellerUnlocker})
 		case "bid-2d":
 			var pstx *bt.Tx
 			pstx, err = ord.MakeBidToBuy1SatOrdinal2Dummies(ctx, &ord.MakeBid2DArgs{BidAmount: f.Price, OrdinalTxID: hex.EncodeToString(f.OrdTxID), OrdinalVOut: f.OrdVout,
@@ -167,7 +172,7 @@ func c20JudgeFlow(c *mon.Ctx, f *c20Flow) {
 				prevs = append(prevs, &bt.UTXO{TxID: in.PreviousTxID(), Vout: in.PreviousTxOutIndex, Satoshis: cn.sats, LockingScript: bscript.NewFromBytes(cn.script)})
 			}
 			final, err = ord.AcceptBidToBuy1SatOrdinal2Dummies(ctx, &ord.ValidateBid2DArgs{PreviousUTXOs: prevs, BidAmount: f.Price, ExpectedFQ: fq},
-				&ord.AcceptBid2DArgs{PSTx: pstx, SellerReceiveOrdinalScript: bscript.NewFromBytes(append([]byte{}, *sellerScript...)), OrdinalUnlocker: sellerUnlocker})
+				&ord.AcceptBid2DArgs{PSTx: pstx, SellerReceiveOrdinalScript: bscript.NewFromBytes(append([]byte{}, *sellerRecv...)), OrdinalUnlocker: sellerUnlocker})
 		}
 	})
 	if !ok {
@@ -217,9 +222,9 @@ func c20JudgeFlow(c *mon.Ctx, f *c20Flow) {
 		if ordIdx != wantSellerIdx {
 			good = false
 			c.Violationf("C20:seller-input-index:"+f.Flow, "seller's ordinal input sits at index %d, expected %d", ordIdx, wantSellerIdx)
-		} else if ordIdx >= len(final.Outputs) || final.Outputs[ordIdx].Satoshis != f.Price || !bytes.Equal(*final.Outputs[ordIdx].LockingScript, *sellerScript) {
+		} else if ordIdx >= len(final.Outputs) || final.Outputs[ordIdx].Satoshis != f.Price || !bytes.Equal(*final.Outputs[ordIdx].LockingScript, *sellerRecv) {
 			good = false
-			c.Violationf("C20:seller-output-changed:"+f.Flow, "the output at the seller's input index %d is not the seller's requested payment (%d sat to %x); tx=%x", ordIdx, f.Price, []byte(*sellerScript), final.Bytes())
+			c.Violationf("C20:seller-output-changed:"+f.Flow, "the output at the seller's input index %d is not the seller's requested payment (%d sat to %x); tx=%x", ordIdx, f.Price, []byte(*sellerRecv), final.Bytes())
 		}
 	}
 	// (3) first-in-first-out routing of the ordinal satoshi
@@ -333,7 +338,7 @@ func lenClass(n int) int {
 func init() {
 	p := &mon.Property{
 		ID: "C20",
-		Rule: "Flows: listing and bid, standard and two-dummies variants, driven through the public ord API with PRNG keys for seller and buyer, prices {1, 2, 546, 10^3, 10^6, 10^9}, funding sets of 2-6 buyer UTXOs with the price-exceeding one at every position and totals on both sides of price + fee (computed from the quote so the threshold is hit), quotes {5/100, 1/1, 500/1000, 0/1, 3/7}, ordinal in a plain P2PKH or P2PKH-inscription output, change to P2PKH or to a non-standard script; the listing is handed to the buyer re-parsed from wire bytes. For every completed transaction: every input executed by the interpreter (FORKID, after Genesis) against the coin it spends, seller's output unchanged at the seller's input index (listing flows), first-in-first-out offset of the ordinal satoshi computed independently must fall into the buyer's script, inputs - outputs >= floor(size x rate). " +
+		Rule: "Flows: listing and bid, standard and two-dummies variants, driven through the public ord API with PRNG keys for seller and buyer, prices {1, 2, 546, 10^3, 10^6, 10^9}, funding sets of 2-6 buyer UTXOs with the price-exceeding one at every position and totals on both sides of price + fee (computed from the quote so the threshold is hit), quotes {5/100, 1/1, 500/1000, 0/1, 3/7}, ordinal in a plain P2PKH or P2PKH-inscription output, change to P2PKH or to a non-standard script, seller paid to P2PKH or to a longer/shorter non-standard script; the listing is handed to the buyer re-parsed from wire bytes. For every completed transaction: every input executed by the interpreter (FORKID, after Genesis) against the coin it spends, seller's output unchanged at the seller's input index (listing flows), first-in-first-out offset of the ordinal satoshi computed independently must fall into the buyer's script, inputs - outputs >= floor(size x rate). " +
 			"Inscriptions: content types and payloads of {0,1,75,76,255,256,65535,65536} bytes (and random lengths) inscribed and parsed back. " +
 			"distinct_nontrivial = distinct completed transactions on which every clause held, plus distinct inscription round trips.",
 		Assum: []string{"coins are identified by outpoint from the monitor's own records, never from what the returned transaction carries", "a flow that returns an error is 'not completed' and is not judged"},
@@ -362,6 +367,9 @@ func init() {
 				f.ChangeLen = prng.Pick(r, []int{1, 26, 200})
 			}
 			f.BuyerInscr = r.Chance(1, 6)
+			if r.Chance(1, 4) {
+				f.SellerLen = prng.Pick(r, []int{1, 26, 35, 71, 105, 300})
+			}
 			n := 2 + r.Intn(5)
 			twoD := f.Flow == "listing-2d" || f.Flow == "bid-2d"
 			if twoD && n < 3 {
